@@ -60,6 +60,8 @@ CONFIGS = [
     {"defaults": False, "init": 2000000, "min": 1000000, "max": 3000000},
     {"defaults": False, "init": 5000, "min": 5000, "max": 5000},
     {"defaults": False, "init": 100000, "min": 50000, "max": 200000000},
+    {"defaults": False, "init": 1000000, "min": 100000, "max": 1000000},      # starts at its maximum: only the loss side can move it
+    {"defaults": False, "init": 300000, "min": 300000, "max": 2000000},       # starts at its minimum
 ]
 PACERS = ["rec", "noop", "leaky", "default"]
 FBS = ["twcc", "rfc8888"]
@@ -199,7 +201,8 @@ def combos(rng, default_share=True):
 
 
 def mk_script(level, conf, pacer, fb, steps, base=0):
-    sc = {"level": level, "pacer": pacer, "fb": fb, "base": base, "steps": steps}
+    sc = {"level": level, "pacer": pacer, "fb": fb, "base": base, "steps": steps,
+          "pcloseerr": pacer != "default" and (len(steps) + conf + base) % 4 == 0}     # the injected pacer's Close fails in a quarter
     sc.update(CONFIGS[conf])
     return sc
 
@@ -490,7 +493,7 @@ def run(ctx):
     rs += [paced_script(rng, cs[i % len(cs)][0], cs[i % len(cs)][1], cs[i % len(cs)][2], 5 if quick else 12)
            for i in range(32 if quick else 200)]
     if quick:   # a few loss scripts also in the quick tier (about 1.2 s each, run in parallel with the others)
-        rs += [loss_script(rng, c, rng.choice(PACERS[:3]), f) for c in (1, 3, 0) for f in FBS]
+        rs += [loss_script(rng, c, rng.choice(PACERS[:3]), f) for c in (1, 3, 0, 4, 5) for f in FBS]
     run_batch(ctx, rs, "T-random", par=16)
     ncon = 24 if quick else 200
     con = [conc_script(rng, cs[i % len(cs)][0], cs[i % len(cs)][1] if cs[i % len(cs)][1] != "default" else "rec",
